@@ -10,6 +10,7 @@ from ..flow import Defs, backward_slice, slice_calls, forward_derived
 from .compiler_common import PX
 
 LEVEL = 'other'
+TECHNIQUE = 'static analysis: must-pass-through (every CFG path to a diagnostic passes the exemption oracles, through wrappers and helper families), graph-walk shape rules, decision audit of walk loops against required exemptions, provenance of derived components'
 CLAUSE = ('every ownership diagnostic of the borrow-check passes is emitted only after CopyChecker::is_copy said no and '
           'get_clone_component_id returned None for the value, and (multiple consumers) only when some control-flow path has two '
           'consumers; the ordering pass applies the same Copy exemption; ScopeId::is_descendant_of explores every parent; '
